@@ -29,6 +29,9 @@ func kfColor(args []KeyBuilderStage) (KeyBuilderStage, error) {
 	}), nil
 }
 
+// Upper bound of what {repeat} builds, in bytes (prevents a memory crash by a single odd count)
+const maxRepeatOutput = 1_000_000
+
 // {repeat c {count}}
 func kfRepeat(args []KeyBuilderStage) (KeyBuilderStage, error) {
 	if len(args) != 2 {
@@ -44,6 +47,9 @@ func kfRepeat(args []KeyBuilderStage) (KeyBuilderStage, error) {
 		count, err := strconv.Atoi(args[1](context))
 		if err != nil {
 			return ErrorNum
+		}
+		if count < 0 || count > maxRepeatOutput || len(char)*count > maxRepeatOutput {
+			return ErrorValue
 		}
 		return strings.Repeat(char, count)
 	}), nil
